@@ -19,6 +19,8 @@ pub fn scenario(tier: &str) -> IncScn {
     roots.push(IncRoot { label: "native-lp/99-unclaimed-epochs".into(), lp_native: true, fee_kind: FeeKind::NativeDiff, prefix: 4, standing_allowance: false });
     // a flow older than 20 epochs whose stakers last claimed more than 20 epochs ago
     roots.push(IncRoot { label: "native-lp/60-epoch-flow-claimed-22-epochs-ago".into(), lp_native: true, fee_kind: FeeKind::NativeDiff, prefix: 7, standing_allowance: false });
+    // amounts of 18-decimals assets (the property quantifies over amounts up to 2^100): every position and flow exceeds 2^64
+    roots.push(IncRoot { label: "native-lp/positions+flow+epoch @1e18-units".into(), lp_native: true, fee_kind: FeeKind::NativeDiff, prefix: 2, standing_allowance: false });
     if tier != "quick" {
         roots.push(IncRoot { label: "native-lp/positions".into(), lp_native: true, fee_kind: FeeKind::Cw20Diff, prefix: 1, standing_allowance: false });
     }
@@ -131,7 +133,18 @@ pub fn run(tier: &str, seed: u64) -> i32 {
     // roots at depth 6 exceed the time cap: 21 M states in 1500 s without finishing the level)
     let cfg = default_cfg("C13", tier, seed, 5);
     if ev.violations.is_empty() {
-        ev.add_report(explore(&scenario(tier), &cfg));
+        let mut main = scenario(tier);
+        if tier == "quick" {
+            // (quick tier: the two roots added last - 18-decimals units, the 60-epoch flow - go to depth 4 in a run of their own)
+            main.roots.retain(|r| !(r.prefix == 7 || r.label.contains("@1e18-units")));
+        }
+        ev.add_report(explore(&main, &cfg));
+    }
+    if tier == "quick" && ev.violations.is_empty() {
+        let mut extra = scenario(tier);
+        extra.roots.retain(|r| r.prefix == 7 || r.label.contains("@1e18-units"));
+        let cfg = default_cfg("C13", tier, seed, 4);
+        ev.add_report(explore(&extra, &cfg));
     }
     if tier != "quick" && ev.violations.is_empty() {
         let mut deep = scenario(tier);
